@@ -3,13 +3,20 @@
       SocketTransportSink (scales/thrift/sink.py)  →  WatermarkPoolSink (scales/pool/watermark.py)
       →  ResurrectorSink (scales/resurrector.py),   with scales/observable.py in between.
 
-  One resurrector, its current pool `p`, that pool's one transport `t` (requests are issued one at
-  a time, min_watermark = 1).  Everything deferred by the code is a task in `tasks`:
+  One resurrector, its current pool `p`, that pool's one live transport `t` (requests are issued one
+  at a time).  The pool's configuration `WM` (`lo` = min_watermark, `hi` = max_watermark) is a
+  parameter: `_Release` caches the returned transport iff `_current_size ≤ lo`, `_Get` creates one
+  iff the cache is empty and `_current_size < hi`.  With `lo = 0` the pool keeps nothing: the probe
+  transport of `_OpenImpl` is discarded (unsubscribed, closed) after a *successful* connect, and
+  every request creates, connects (blocking the caller in `sink.Open().wait()`), uses and discards
+  its own transport.  Everything deferred by the code is a task in `tasks`:
 
     poolOpen   SafeLink greenlet of `WatermarkPoolSink.Open()`     (`_OpenImpl` → `_Get`)
     trOpen     SafeLink greenlet of `SocketTransportSink.Open()`   (`_OpenImpl`: connect)
     wakeGet    link of the transport's open result: resumes the pool greenlet blocked in
                `sink.Open().wait()`, which continues with `_Release` and the end of `_OpenImpl`
+    wakeReq    the same link when the greenlet blocked in `_Get` is a caller's
+               (`PoolSink.AsyncProcessRequest`): it continues with `sink.AsyncProcessRequest`
     notifyT    `Observable.__Notify` of the transport's `on_faulted`  (reads subscribers when run)
     notifyP    the same for the pool's `on_faulted`
     notifyUp   the same for the resurrector's `on_faulted` (the balancer's subscription)
@@ -47,13 +54,21 @@ inductive Slp where
   | none | fresh | backoff
   deriving Repr, DecidableEq, Inhabited
 
+/-- the answer to a request; `pending` (never answered within the drain) is never produced by the
+    model — it is there so that the specification can judge an implementation that hangs -/
 inductive RespK where
-  | none | ok | err | ff
+  | none | ok | err | ff | pending
   deriving Repr, DecidableEq, Inhabited
 
 inductive Task where
-  | poolOpen | trOpen | wakeGet | notifyT | notifyP | notifyUp | resStart | resume | kill
+  | poolOpen | trOpen | wakeGet | wakeReq | notifyT | notifyP | notifyUp | resStart | resume | kill
   | reqStart (eof : Bool) | tx (eof : Bool) | reply | ffResp
+  deriving Repr, DecidableEq, Inhabited
+
+/-- the pool's configuration: `min_watermark`, `max_watermark` (shipped: 1 and Int.MaxValue) -/
+structure WM where
+  lo : Nat := 1
+  hi : Nat := 2147483647
   deriving Repr, DecidableEq, Inhabited
 
 structure C where
@@ -69,6 +84,8 @@ structure C where
   pCache : Bool := false        -- t is in the cache
   pAr : Ar := .none             -- result of p.Open()
   pG : PG := .none
+  qG : Option Bool := none      -- a caller's greenlet is blocked in `_Get` → `sink.Open().wait()`
+                                -- (the flag: will the peer close the connection instead of answering)
   -- resurrector
   rNext : Bool := false         -- next_sink is p
   rSub : Bool := false          -- `_OnSinkFaulted` is subscribed to p.on_faulted
@@ -90,12 +107,26 @@ def poolClose (c : C) : C :=
   let c := { c with pSt := .closed }
   if c.pCache then { c with tSub := false, tSt := .closed, tAr := .none } else c
 
-/-- `WatermarkPoolSink._Release(t)` (no waiters, min_watermark = 1) -/
-def poolRelease (c : C) : C :=
-  if c.pSt = .closed then { c with pSize := c.pSize - 1 }
+/-- `WatermarkPoolSink._DiscardSink(t)`: unsubscribe, `t.Close()` -/
+def discard (c : C) : C := { c with tSub := false, tSt := .closed, tAr := .none }
+
+/-- `WatermarkPoolSink._Release(t)` (no waiters) -/
+def poolRelease (w : WM) (c : C) : C :=
+  if c.pSt = .closed then discard { c with pSize := c.pSize - 1 }
   else if c.tSt = .closed then poolClose { c with pSize := c.pSize - 1 }
-  else if c.pSize ≤ 1 then { c with pCache := true }
-  else { c with pSize := c.pSize - 1, tSub := false, tSt := .closed, tAr := .none }
+  else if c.pSize ≤ w.lo then { c with pCache := true }
+  else discard { c with pSize := c.pSize - 1 }
+
+/-- `_Get` with an empty cache and room below the high watermark: count, create `t`, subscribe
+    (repaired code: before the wait), `t.Open()` -/
+def poolCreate (c : C) : C :=
+  push { c with pSize := c.pSize + 1, tSt := .idle, tSub := c.fixed, tAr := .pending } .trOpen
+
+/-- resume whoever is blocked in `t.Open().wait()` -/
+def wakeWaiter (c : C) : C :=
+  if c.pG = .waitT then push c .wakeGet
+  else if c.qG.isSome then push c .wakeReq
+  else c
 
 /-- `ResurrectorSink._OnSinkFaulted` -/
 def onSinkFaulted (c : C) : C :=
@@ -113,32 +144,33 @@ def trFault (c : C) : C :=
   if c.tSt = .closed then c
   else push { c with tSt := .closed, tAr := .none } .notifyT
 
-def runTask (c : C) : Task → C
+def runTask (w : WM) (c : C) : Task → C
   | .poolOpen =>
-    -- _OpenImpl → _Get: cache empty, create t, (subscribe,) t.Open(), wait
+    -- _OpenImpl → _Get
     if c.pCache then
       -- a cached sink is handed out and released again at once
-      let c := poolRelease { c with pCache := false }
+      let c := poolRelease w { c with pCache := false }
       if c.fixed && c.pSt = .closed then { c with pAr := .fail, pG := .done }
       else
         let c := { c with pSt := .opened, pAr := .ok, pG := .done }
         if c.rRes = .opening then push c .resume else c
+    else if c.pSize < w.hi then
+      -- cache empty: create t, (subscribe,) t.Open(), wait
+      poolCreate { c with pG := .waitT }
     else
-      let c := { c with pSize := c.pSize + 1, tSt := .idle, tSub := c.fixed, tAr := .pending, pG := .waitT }
-      push c .trOpen
+      -- at the high watermark: a QueuingMessageSink (not described)
+      { c with uncovered := true }
   | .trOpen =>
     let c := { c with connects := c.connects + 1 }
     if c.reach then
-      let c := { c with tSt := .opened, tAr := .ok }
-      if c.pG = .waitT then push c .wakeGet else c
+      wakeWaiter { c with tSt := .opened, tAr := .ok }
     else
       let c := trFault c
-      let c := { c with tAr := .fail }
-      if c.pG = .waitT then push c .wakeGet else c
+      wakeWaiter { c with tAr := .fail }
   | .wakeGet =>
     if c.pG = .waitT then
       let c := if c.fixed then c else { c with tSub := true }
-      let c := poolRelease c
+      let c := poolRelease w c
       if c.fixed && c.pSt = .closed then
         let c := { c with pAr := .fail, pG := .done }
         if c.rRes = .opening then push c .resume else c
@@ -146,6 +178,13 @@ def runTask (c : C) : Task → C
         let c := { c with pSt := .opened, pAr := .ok, pG := .done }
         if c.rRes = .opening then push c .resume else c
     else c
+  | .wakeReq =>
+    -- `_Get` returns the transport whatever became of its Open(); the request goes down to it
+    match c.qG with
+    | some eof =>
+      let c := if c.fixed then c else { c with tSub := true }
+      push { c with qG := none } (.tx eof)
+    | none => c
   | .notifyT => if c.tSub then push c .notifyP else c
   | .notifyP => if c.rSub then onSinkFaulted c else c
   | .notifyUp => { c with ups := c.ups + 1 }
@@ -166,8 +205,14 @@ def runTask (c : C) : Task → C
     if c.rRes = .sleeping ∨ c.rRes = .opening then { c with rRes := .none } else c
   | .reqStart eof =>
     if c.rNext then
-      -- pool._Get: the cached transport, if it is still open
-      if c.pCache && c.tSt ≠ .closed then push { c with pCache := false } (.tx eof)
+      if c.pCache then
+        -- pool._Get: the cached transport, if it is still open
+        if c.tSt ≠ .closed then push { c with pCache := false } (.tx eof)
+        else { c with uncovered := true }
+      else if c.pSize < w.hi ∧ c.tSt = .closed ∧ c.tSub = false ∧ c.qG = none then
+        -- nothing cached, the previous transport is gone: the caller creates one and waits for
+        -- its connect
+        poolCreate { c with qG := some eof }
       else { c with uncovered := true }
     else push c .ffResp
   | .tx eof =>
@@ -175,43 +220,52 @@ def runTask (c : C) : Task → C
       if eof then
         -- EOFError → _Fault(ex) → response → pool._Release
         let c := trFault c
-        { poolRelease c with resp := .err }
+        { poolRelease w c with resp := .err }
       else push c .reply
     else
       -- write on a closed socket → _Fault (no-op) → response → pool._Release
-      { poolRelease c with resp := .err }
-  | .reply => { poolRelease c with resp := .ok }
+      { poolRelease w c with resp := .err }
+  | .reply => { poolRelease w c with resp := .ok }
   | .ffResp => { c with resp := .ff }
 
 /-- remove the `i`-th queued task and run it -/
-def fire (c : C) (i : Nat) : C :=
+def fire (w : WM) (c : C) (i : Nat) : C :=
   match c.tasks[i]? with
-  | some t => runTask { c with tasks := c.tasks.eraseIdx i } t
+  | some t => runTask w { c with tasks := c.tasks.eraseIdx i } t
   | none => c
 
 /-- run under a schedule: each pick selects (mod the queue length) the task that runs next;
     stops when nothing is queued or the schedule is exhausted -/
-def run (c : C) : List Nat → C
+def run (w : WM) (c : C) : List Nat → C
   | [] => c
   | k :: ks =>
     if c.tasks.length = 0 then c
-    else run (fire c (k % c.tasks.length)) ks
+    else run w (fire w c (k % c.tasks.length)) ks
 
 /-- gevent's order -/
-def runFIFO (c : C) : Nat → C
+def runFIFO (w : WM) (c : C) : Nat → C
   | 0 => c
-  | n + 1 => if c.tasks.length = 0 then c else runFIFO (fire c 0) n
+  | n + 1 => if c.tasks.length = 0 then c else runFIFO w (fire w c 0) n
 
-/-- the final states of all schedules, `none` if some schedule is longer than `fuel` -/
-def explore : Nat → C → Option (List C)
-  | 0, c => if c.tasks.length = 0 then some [c] else none
+/-- the pool sizes up to which the watermarks `w` and `clampWM w` decide alike -/
+def sizeBound : Nat := 2
+
+/-- every pair of watermarks behaves, while the pool holds at most `sizeBound` transports, like
+    one of the nine pairs lo ∈ {0, 1, 2}, hi ∈ {1, 2, 3} (hi = 0 stays 0) -/
+def clampWM (w : WM) : WM := ⟨min w.lo 2, min w.hi 3⟩
+
+/-- the final states of all schedules; `none` if some schedule is longer than `fuel` or passes
+    through a state with more than `sizeBound` transports counted -/
+def explore (w : WM) : Nat → C → Option (List C)
+  | 0, c => if c.tasks.length = 0 ∧ c.pSize ≤ sizeBound then some [c] else none
   | fuel + 1, c =>
-    if c.tasks.length = 0 then some [c]
+    if sizeBound < c.pSize then none
+    else if c.tasks.length = 0 then some [c]
     else
       (List.range c.tasks.length).foldr
         (fun i acc => do
           let a ← acc
-          let b ← explore fuel (fire c i)
+          let b ← explore w fuel (fire w c i)
           pure (b ++ a))
         (some [])
 
@@ -223,7 +277,7 @@ def begin (c : C) : C := { c with ups := 0, connects := 0, resp := .none, slp :=
 /-- a fresh pool and transport replace the previous (closed) ones -/
 def newPool (c : C) : C :=
   { c with tSt := .idle, tSub := false, tAr := .none, pSt := .idle, pSize := 0, pCache := false,
-           pAr := .pending, pG := .none }
+           pAr := .pending, pG := .none, qG := none }
 
 /-- `ResurrectorSink.Open()` -/
 def opOpen (c : C) : C :=
@@ -258,6 +312,6 @@ def learned (c : C) : Prop := c.rDown = true ∧ c.rNext = false ∧ c.rRes = .s
 instance (c : C) : Decidable (learned c) := by unfold learned; infer_instance
 
 /-- enough for every schedule of every operation (see `C09_chain_terminates`) -/
-def fuel : Nat := 16
+def fuel : Nat := 20
 
 end Scales.Chain
